@@ -88,6 +88,7 @@ extern "C" int clock_gettime(clockid_t id, struct timespec* ts)
 #include "quill/LogMacros.h"
 #include "quill/Logger.h"
 #include "quill/backend/RdtscClock.h"
+#include "quill/UserClockSource.h"
 #include "quill/sinks/Sink.h"
 
 using quill::detail::RdtscClock;
@@ -410,12 +411,23 @@ static void print_stats()
 // e2e: real Frontend / Logger(Tsc) / BackendWorker. Script lines:
 //   cfg grace=<us> interval=<ms>          backend options (before the first poll)
 //   now tsc=<t> wall=<w>                  set the two clocks (every rdtsc() / system_clock read returns these)
-//   log <thread> <id>                     LOG_INFO on frontend thread <thread> (one persistent thread, hence one thread context, per number); reads rdtsc = now
-//   poll                                  ManualBackendWorker::poll_one   => w:<id>@<timestamp> ...
-// oracle: timestamps handed to the sink are non-decreasing.
+//   log <thread> <id> [tsc|sys|usr]       LOG_INFO on frontend thread <thread> (one persistent thread, hence one thread context, per number) through
+//                                         the logger with ClockSourceType::Tsc (default; reads rdtsc = now) / System (reads wall = now) / a user clock
+//   poll [<site>.<k>:<cmd>;<cmd>…]…       ManualBackendWorker::poll_one   => w:<id>@<timestamp> ...
+//                                         with frontend commands injected at the k-th pass of hook site <site> inside this poll
+//                                         (QUILL_VERIF_YIELD: 2 = before each queue is read, 3 = after each record); <cmd> = now,tsc=…,wall=… | adv,<ns> (both clocks, 1 tick = 1 ns) | log,<thread>,<id>[,src]
+// oracles: the timestamps handed to the sink are non-decreasing, and statements are written in the order of the clock values read
+// by their log calls (statements of the user-clock logger are skipped: outside C05's claim). Every statement is enqueued by its own
+// log call at once (unbounded queue), so the grace-period premise holds by construction.
 // ---------------------------------------------------------------------------------------------------------------
 static std::vector<std::string> g_events;
 static std::vector<std::pair<std::string, uint64_t>> g_written;
+static std::map<std::string, std::string> g_src;
+struct ScriptClock : quill::UserClockSource
+{
+  uint64_t now() const override { return 42; } // a user clock that does not move: never compared with ts_now, never ordered
+};
+static ScriptClock g_user_clock;
 static std::map<std::string, uint64_t> g_logged_tsc;
 struct RecSink : quill::Sink
 {
@@ -465,20 +477,87 @@ struct Worker
   }
 };
 
-static int e2e_main(char const* path)
+struct E2E
 {
   std::map<std::string, std::unique_ptr<Worker>> workers;
+  quill::BackendOptions bo;
+  quill::ManualBackendWorker* mw{nullptr};
+  quill::Logger* lg_tsc{nullptr};
+  quill::Logger* lg_sys{nullptr};
+  quill::Logger* lg_usr{nullptr};
+  std::map<std::pair<int, int>, std::vector<std::string>> inject; // (site, k) -> commands, for the poll in progress
+  std::map<int, int> site_count;
+  bool in_hook{false};
+  bool in_poll{false};
+
+  void start()
+  {
+    if (mw) { return; }
+    mw = quill::Backend::acquire_manual_backend_worker();
+    mw->init(bo);
+    auto sink = quill::Frontend::create_or_get_sink<RecSink>("rec");
+    lg_tsc = quill::Frontend::create_or_get_logger("tsc", sink, quill::PatternFormatterOptions{"%(message)"}, quill::ClockSourceType::Tsc);
+    lg_sys = quill::Frontend::create_or_get_logger("sys", sink, quill::PatternFormatterOptions{"%(message)"}, quill::ClockSourceType::System);
+    lg_usr = quill::Frontend::create_or_get_logger("usr", sink, quill::PatternFormatterOptions{"%(message)"}, quill::ClockSourceType::User, &g_user_clock);
+  }
+
+  void set_now(std::vector<std::string> const& w, size_t from)
+  {
+    for (size_t i = from; i < w.size(); ++i)
+    {
+      auto kv = split(w[i], '=');
+      if (kv.size() != 2) { continue; }
+      if (kv[0] == "tsc") { g_tsc_now = std::stoull(kv[1]); }
+      if (kv[0] == "wall") { g_wall_now = std::stoll(kv[1]); }
+    }
+  }
+
+  std::string do_log(std::string const& th, std::string const& id, std::string const& src)
+  {
+    start();
+    quill::Logger* lg = src == "sys" ? lg_sys : (src == "usr" ? lg_usr : lg_tsc);
+    auto& wk = workers[th];
+    if (!wk) { wk.reset(new Worker); }
+    wk->run([&] { LOG_INFO(lg, "{}", id); });
+    g_logged_tsc[id] = g_tsc_now;
+    g_src[id] = src;
+    return src + ":tsc=" + std::to_string(g_tsc_now);
+  }
+
+  void hook(int site)
+  {
+    if (!in_poll || in_hook) { return; }
+    int const k = ++site_count[site];
+    auto it = inject.find({site, k});
+    if (it == inject.end()) { return; }
+    in_hook = true;
+    for (auto const& cmd : it->second)
+    {
+      auto f = split(cmd, ',');
+      if (f.empty()) { continue; }
+      if (f[0] == "now") { set_now(f, 1); }
+      else if (f[0] == "adv" && f.size() >= 2) { long long const d = std::stoll(f[1]); g_tsc_now += static_cast<uint64_t>(d); g_wall_now += d; }
+      else if (f[0] == "log" && f.size() >= 3) { g_events.push_back("i" + std::to_string(site) + "." + std::to_string(k) + ":" + f[2] + "@" + do_log(f[1], f[2], f.size() > 3 ? f[3] : "tsc")); }
+    }
+    in_hook = false;
+  }
+};
+static E2E* g_e2e = nullptr;
+static void e2e_hook(int site) { if (g_e2e) { g_e2e->hook(site); } }
+
+static int e2e_main(char const* path)
+{
+  E2E e;
+  g_e2e = &e;
   std::ifstream in(path);
   std::string line;
-  quill::BackendOptions bo;
-  bo.sink_min_flush_interval = std::chrono::milliseconds{0};
-  bo.error_notifier = [](std::string const& s) { g_events.push_back("n:" + s.substr(0, 30)); };
-  quill::ManualBackendWorker* mw = nullptr;
-  quill::Logger* lg = nullptr;
+  e.bo.sink_min_flush_interval = std::chrono::milliseconds{0};
+  e.bo.error_notifier = [](std::string const& s) { g_events.push_back("n:" + s.substr(0, 30)); };
   g_mode = 1;
   RdtscClock::RdtscTicks::instance(); // calibration under the virtual clocks
   RdtscClock::RdtscTicks::instance()._ns_per_tick = 1.0;
   g_mode = 2;
+  quill::detail::verif_yield_hook = e2e_hook;
   while (std::getline(in, line))
   {
     auto const arrow = line.find(" => ");
@@ -491,68 +570,71 @@ static int e2e_main(char const* path)
       for (size_t i = 1; i < w.size(); ++i)
       {
         auto kv = split(w[i], '=');
-        if (kv[0] == "grace") { bo.log_timestamp_ordering_grace_period = std::chrono::microseconds{std::stoll(kv[1])}; }
-        if (kv[0] == "interval") { bo.rdtsc_resync_interval = std::chrono::milliseconds{std::stoll(kv[1])}; }
+        if (kv[0] == "grace") { e.bo.log_timestamp_ordering_grace_period = std::chrono::microseconds{std::stoll(kv[1])}; }
+        if (kv[0] == "interval") { e.bo.rdtsc_resync_interval = std::chrono::milliseconds{std::stoll(kv[1])}; }
         if (kv[0] == "nspt") { RdtscClock::RdtscTicks::instance()._ns_per_tick = std::stod(kv[1]); }
       }
     }
-    else if (w[0] == "now")
+    else if (w[0] == "now") { e.set_now(w, 1); }
+    else if (w[0] == "adv" && w.size() >= 2) { long long const d = std::stoll(w[1]); g_tsc_now += static_cast<uint64_t>(d); g_wall_now += d; }
+    else if (w[0] == "log" && w.size() >= 3) { obs = e.do_log(w[1], w[2], w.size() > 3 ? w[3] : "tsc"); }
+    else if (w[0] == "poll")
     {
+      e.start();
+      g_events.clear();
+      e.inject.clear();
+      e.site_count.clear();
       for (size_t i = 1; i < w.size(); ++i)
       {
-        auto kv = split(w[i], '=');
-        if (kv[0] == "tsc") { g_tsc_now = std::stoull(kv[1]); }
-        if (kv[0] == "wall") { g_wall_now = std::stoll(kv[1]); }
+        auto const colon = w[i].find(':');
+        auto const dot = w[i].find('.');
+        if (colon == std::string::npos || dot == std::string::npos || dot > colon) { continue; }
+        e.inject[{std::stoi(w[i].substr(0, dot)), std::stoi(w[i].substr(dot + 1, colon - dot - 1))}] = split(w[i].substr(colon + 1), ';');
       }
-    }
-    else if (w[0] == "log" && w.size() >= 3)
-    {
-      if (!mw)
-      {
-        mw = quill::Backend::acquire_manual_backend_worker();
-        mw->init(bo);
-        auto sink = quill::Frontend::create_or_get_sink<RecSink>("rec");
-        lg = quill::Frontend::create_or_get_logger("tsc", sink, quill::PatternFormatterOptions{"%(message)"}, quill::ClockSourceType::Tsc);
-      }
-      std::string const id = w[2];
-      auto& wk = workers[w[1]];
-      if (!wk) { wk.reset(new Worker); }
-      wk->run([&] { LOG_INFO(lg, "{}", id); });
-      obs = "tsc=" + std::to_string(g_tsc_now);
-      g_logged_tsc[id] = g_tsc_now;
-    }
-    else if (w[0] == "poll" && mw)
-    {
-      g_events.clear();
-      mw->poll_one();
+      e.in_poll = true;
+      e.mw->poll_one();
+      e.in_poll = false;
       obs = "";
-      for (auto const& e : g_events) { obs += (obs.empty() ? "" : " ") + e; }
+      for (auto const& ev : g_events) { obs += (obs.empty() ? "" : " ") + ev; }
       if (obs.empty()) { obs = "-"; }
     }
     else { obs = "bad-op"; }
     std::cout << line << " => " << obs << "\n";
   }
   int bad = 0;
-  for (size_t i = 1; i < g_written.size(); ++i)
+  // input class of a hit: two TSC statements whose written timestamps do not differ by scale(tsc difference) ± 1 ns were converted
+  // against different bases, i.e. a resync took place between their conversions (finding F38); everything else is `same-base`
+  double const nspt = RdtscClock::RdtscTicks::instance()._ns_per_tick;
+  auto cls = [&](std::pair<std::string, uint64_t> const& x, std::pair<std::string, uint64_t> const& y) -> std::string
   {
-    if (g_written[i].second < g_written[i - 1].second)
+    if (g_src[x.first] != "tsc" || g_src[y.first] != "tsc") { return "class=same-base"; }
+    int64_t const dt = static_cast<int64_t>(g_logged_tsc[y.first] - g_logged_tsc[x.first]);
+    int64_t const want = static_cast<int64_t>(static_cast<double>(dt) * nspt);
+    int64_t const got = static_cast<int64_t>(y.second - x.second);
+    return (got - want > 1 || want - got > 1) ? "class=resync-between-conversions" : "class=same-base";
+  };
+  std::vector<std::pair<std::string, uint64_t>> ord; // the statements inside C05's claim: system and TSC clock
+  for (auto const& wr : g_written) { if (g_src[wr.first] != "usr") { ord.push_back(wr); } }
+  for (size_t i = 1; i < ord.size(); ++i)
+  {
+    if (ord[i].second < ord[i - 1].second)
     {
-      std::cout << "ORACLE C05 timestamp-order statement " << g_written[i - 1].first << " written with timestamp " << g_written[i - 1].second
-                << " before statement " << g_written[i].first << " with timestamp " << g_written[i].second << "\n";
+      std::cout << "ORACLE C05 timestamp-order statement " << ord[i - 1].first << " written with timestamp " << ord[i - 1].second
+                << " before statement " << ord[i].first << " with timestamp " << ord[i].second << " " << cls(ord[i - 1], ord[i]) << "\n";
       ++bad;
     }
   }
-  for (size_t i = 1; i < g_written.size(); ++i)
+  for (size_t i = 1; i < ord.size(); ++i)
   {
-    uint64_t const a = g_logged_tsc[g_written[i - 1].first], b = g_logged_tsc[g_written[i].first];
+    uint64_t const a = g_logged_tsc[ord[i - 1].first], b = g_logged_tsc[ord[i].first];
     if (static_cast<int64_t>(b - a) < 0)
     {
-      std::cout << "ORACLE C05 clock-value-order statement " << g_written[i - 1].first << " (clock value " << a << " read at the start of its log call) written before statement "
-                << g_written[i].first << " (clock value " << b << ")\n";
+      std::cout << "ORACLE C05 clock-value-order statement " << ord[i - 1].first << " (clock value " << a << " read at the start of its log call) written before statement "
+                << ord[i].first << " (clock value " << b << ") " << cls(ord[i - 1], ord[i]) << "\n";
       ++bad;
     }
   }
-  std::cout << "STATS e2e_written=" << g_written.size() << " oracle=" << bad << "\n";
+  std::cout << "STATS e2e_written=" << g_written.size() << " logged=" << g_logged_tsc.size() << " oracle=" << bad << "\n";
   std::cout.flush();
   std::_Exit(bad ? 3 : 0);
 }
